@@ -24,7 +24,7 @@ from hsim.worlds.http import FlowRecord, HttpWorld
 
 PROPERTY = "C17"
 CHUNK = {"quick": 10, "thorough": 24}
-PROBES = ["replay_served", "replay_served_twice_in_a_row", "swallow_all_gives_undef", "injection_across_non_200",
+PROBES = ["reentrant_injection_in_same_response", "replay_served", "replay_served_twice_in_a_row", "swallow_all_gives_undef", "injection_across_non_200",
           "injection_while_replay_served", "teardown_with_pending_injection", "hook_raised", "region_announced",
           "region_announced_twice", "announcement_swallowed", "inject_message_templated", "empty_events_with_injection",
           "lost_undef_response", "two_regions_polling", "origin_undef"]
@@ -56,6 +56,7 @@ def gen_plan(rng: random.Random, tier: str) -> dict:
     p_bad = rng.choice([0.0, 0.15, 0.3])
     p_swallow = rng.choice([0.0, 0.2, 0.5])
     p_inject = rng.choice([0.0, 0.15, 0.3])
+    p_replace = rng.choice([0.0, 0.0, 0.3, 0.7])
     n = rng.randint(3, 36 if big else 20)
     steps = []
     t = 0.01
@@ -88,6 +89,9 @@ def gen_plan(rng: random.Random, tier: str) -> dict:
                         kind = "templated"
                     events.append({"n": ev_no, "kind": kind, "addr": rng.randrange(4),
                                    "swallow": rng.random() < p_swallow, "raise": rng.random() < 0.1})
+                    if events[-1]["swallow"] and rng.random() < p_replace:
+                        # the addon swallows the event and injects a rewritten one in its place, from inside the hook
+                        events[-1]["replace"] = True
                 if events and rng.random() < 0.1:
                     for e in events:
                         e["swallow"] = True
@@ -111,6 +115,8 @@ def simplify_step(step):
                     yield {**step, "events": evs[:i] + [{**e, "kind": "plain"}] + evs[i + 1:]}
                 if e["raise"]:
                     yield {**step, "events": evs[:i] + [{**e, "raise": False}] + evs[i + 1:]}
+                if e.get("replace"):
+                    yield {**step, "events": evs[:i] + [{k: v for k, v in e.items() if k != "replace"}] + evs[i + 1:]}
         if step["status"] != 200:
             yield {**step, "status": 200, "events": []}
     if step["op"] == "inject" and step["how"] != "event":
@@ -149,6 +155,10 @@ def run_plan(plan: dict) -> RunResult:
         lser = LLSDMessageSerializer()
         swallow_set = set()
         raise_set = set()
+        replace_set = set()
+
+        def replacement_of(n):
+            return {"message": "HsimReplacement", "body": {"n": 100000 + n}}
         for st in plan["steps"]:
             if st["op"] == "poll" and st.get("events"):
                 for e in st["events"]:
@@ -156,6 +166,8 @@ def run_plan(plan: dict) -> RunResult:
                         swallow_set.add(e["n"])
                     if e["raise"]:
                         raise_set.add(e["n"])
+                    if e.get("replace"):
+                        replace_set.add(e["n"])
 
         def marker(event: dict) -> Optional[int]:
             try:
@@ -190,6 +202,9 @@ def run_plan(plan: dict) -> RunResult:
                     res.probe("hook_raised")
                     raise RuntimeError("scripted failure in handle_eq_event")
                 if n in swallow_set:
+                    if n in replace_set:
+                        res.fault("inject_from_inside_hook")
+                        region.eq_manager.inject_event(replacement_of(n))
                     return True
                 return None
 
@@ -414,6 +429,24 @@ def run_plan(plan: dict) -> RunResult:
                         res.probe("empty_events_with_injection")
                     new_events.extend(pending[r])
                     pending[r] = []
+                    # events injected from inside a hook while this response was being rewritten go out with it, or
+                    # with the next events-carrying response: both are "delivered exactly once, in the next response
+                    # that carries events"; the model follows whichever the response actually did
+                    repl = [replacement_of(e_spec["n"]) for e_spec in st["events"]
+                            if e_spec.get("replace") and e_spec["swallow"] and not e_spec["raise"]]
+                    if repl:
+                        got_markers = None
+                        try:
+                            gb = llsd.parse_xml(rec.result["content"]) if rec.result is not None else None
+                            got_markers = [marker(e) for e in gb["events"]] if gb else []
+                        except Exception:
+                            pass
+                        if got_markers is not None and got_markers == [marker(e) for e in new_events]:
+                            pending[r] = repl
+                            res.probe("reentrant_injection_deferred_to_next_response")
+                        else:
+                            new_events.extend(repl)
+                            res.probe("reentrant_injection_in_same_response")
                     if body["events"] and not new_events:
                         res.probe("swallow_all_gives_undef")
                         payload = None
